@@ -10,7 +10,7 @@ INC = -I/verif/shim $(foreach d,common Simplex_tree Persistence_matrix Zigzag_pe
 LDFLAGS_ASAN = $(SAN)
 
 ENGINES_SIMPLE = toplex skbl
-all: $(foreach e,$(ENGINES_SIMPLE),$(BUILD)/$(e))
+all: $(foreach e,$(ENGINES_SIMPLE),$(BUILD)/$(e)) $(BUILD)/st_hist
 
 $(BUILD)/core.o: /verif/sim/core.cpp /verif/sim/core.h
 	@mkdir -p $(BUILD)
@@ -21,6 +21,18 @@ $(BUILD)/%.o: /verif/engines/%.cpp
 	$(CXX) $(CXXFLAGS_COMMON) $(SAN) $(INC) -c $< -o $@
 
 $(foreach e,$(ENGINES_SIMPLE),$(BUILD)/$(e)): $(BUILD)/%: $(BUILD)/%.o $(BUILD)/core.o
+	$(CXX) $(LDFLAGS_ASAN) $^ -o $@
+
+# st_hist: one object per Simplex_tree option set; 0..6 with GUDHI_USE_TBB + the sort shim, 7..8 sequential sort path
+ST_CFGS_TBB = 0 1 2 3 4 5 6
+ST_CFGS_SEQ = 7 8
+$(foreach k,$(ST_CFGS_TBB),$(BUILD)/st_cfg_$(k).o): $(BUILD)/st_cfg_%.o: /verif/engines/st_cfg.cpp
+	@mkdir -p $(BUILD)
+	$(CXX) $(CXXFLAGS_COMMON) $(SAN) $(INC) -DGUDHI_USE_TBB -DST_CFG=$* -c $< -o $@
+$(foreach k,$(ST_CFGS_SEQ),$(BUILD)/st_cfg_$(k).o): $(BUILD)/st_cfg_%.o: /verif/engines/st_cfg.cpp
+	@mkdir -p $(BUILD)
+	$(CXX) $(CXXFLAGS_COMMON) $(SAN) $(INC) -DST_CFG=$* -c $< -o $@
+$(BUILD)/st_hist: $(BUILD)/st_hist.o $(BUILD)/core.o $(foreach k,$(ST_CFGS_TBB) $(ST_CFGS_SEQ),$(BUILD)/st_cfg_$(k).o)
 	$(CXX) $(LDFLAGS_ASAN) $^ -o $@
 
 -include $(wildcard $(BUILD)/*.d)
